@@ -191,7 +191,12 @@ def _gen_case(rp, rf, rk, tier, flavour):
                         continue
                     if k in ("mac",) and segs and segs[-1] == ["d", ":"]:
                         segs[-1] = ["d", " "]
+                    if k == "ip" and rp.random() < 0.12:
+                        segs.append(["f", rp.choice(["http://", "https://", "tcp://"])])      # an address inside a URL
                     segs.append([k, t])
+                    if k == "ip" and rp.random() < 0.3:
+                        # an address followed by a netmask, a port or a path (the adornment is not sensitive)
+                        segs.append(["f", rp.choice(["/24", "/8", ":8080", ":22", "/index.html", "/32"])])
                 elif r < 0.63:
                     key = "password" + rp.choice(["", "_x", "2", "Hash"])
                     sep = rp.choice(["=", ": ", " = ", "=\"", " ", ":", "==", " --md5 "])
@@ -222,16 +227,23 @@ def _gen_case(rp, rf, rk, tier, flavour):
                             if 0 <= nb < len(segs) and segs[nb][0] == "d" and segs[nb][1] in (":", "-"):
                                 segs[nb] = ["d", " "]
             lines.append(segs)
+            if not marker_mode and segs and rp.random() < 0.08:
+                lines.append(json.loads(json.dumps(segs)))          # the same line twice
         spec = {"lines": lines,
                 "no_obfuscate": [x for x in ALL_OBF if rk.random() < 0.1],
                 "no_redact": rk.random() < 0.1,
-                "allowlist": None, "width": False}
+                "allowlist": None, "width": False, "via": "content"}
+        if len(lines) == 1 and rk.random() < 0.3:
+            spec["via"] = "single"            # clean_content(<one string>) instead of a list of lines
+        elif flavour == "C08" and rk.random() < 0.08:
+            spec["via"] = "file"              # Cleaner.clean_file on a file in the scratch area
         if rk.random() < 0.12:
             spec["allowlist"] = dict((w, 10000) for w in rk.sample(["ERROR", "link", "inet", "gizmo", "~m"], rk.randint(1, 2)))
         if flavour == "C10" and rk.random() < 0.1:
             spec["width"] = True          # column-preserving mode of the netstat spec: only determinism is claimed for it
         specs.append(spec)
     case = {"w": "w3", "flavour": flavour, "cfg": cfg, "fqdn": fqdn, "keywords": kws, "patterns": patterns, "specs": specs,
+            "kw_pad": rk.random() < 0.15, "facts_mid": (rk.randrange(len(specs)) if flavour == "C09" and rk.random() < 0.2 else None),
             "marker_mode": marker_mode, "regime": "collision" if collision else ("k6" if k6 else "base"),
             "suffix_pair": suffix_pair, "prefix_pair": prefix_pair, "_pool": pool}
     if collision:
@@ -253,7 +265,7 @@ def text_of(segs):
 # execution
 # ------------------------------------------------------------------------------------------------
 def rm_conf_of(case):
-    rm = {"keywords": list(case["keywords"])}
+    rm = {"keywords": [(" %s " % k if case.get("kw_pad") else k) for k in case["keywords"]]}     # configured with stray blanks
     p = case["patterns"]
     if "regex" in p:
         rm["patterns"] = {"regex": list(p["regex"])}
@@ -302,14 +314,28 @@ def run_history(case, facts_dir=None):
     r.raised = []
     r.orders = []
     r.snapshots = []
-    for spec in case["specs"]:
+    for si, spec in enumerate(case["specs"]):
         raw = [text_of(segs) for segs in spec["lines"]]
         del order_log[:]
         try:
-            out = c.clean_content(list(raw), no_obfuscate=list(spec["no_obfuscate"]), no_redact=spec["no_redact"],
-                                  allowlist=(dict(spec["allowlist"]) if spec["allowlist"] is not None else None), width=spec["width"])
+            via = spec.get("via", "content")
+            kwargs = dict(no_obfuscate=list(spec["no_obfuscate"]), no_redact=spec["no_redact"],
+                          allowlist=(dict(spec["allowlist"]) if spec["allowlist"] is not None else None))
+            if via == "single" and len(raw) == 1:
+                one = c.clean_content(raw[0], width=spec["width"], **kwargs)
+                out = [one] if one else []        # for the one-string form "dropped" is a falsy result (None or "")
+            elif via == "file" and facts_dir:
+                fp = os.path.join(facts_dir, "spec-%d.txt" % si)
+                with open(fp, "w") as f:
+                    f.write("".join(l + "\n" for l in raw))
+                c.clean_file(fp, **kwargs)
+                out = [l.rstrip("\n") for l in open(fp).readlines()] if os.path.exists(fp) else []
+            else:
+                out = c.clean_content(list(raw), width=spec["width"], **kwargs)
             r.outputs.append(out)
             r.raised.append(None)
+            if facts_dir and case.get("facts_mid") == si:
+                c.generate_rhsm_facts()              # a report in the middle of the run must not disturb anything
         except Exception as e:
             r.outputs.append(None)
             r.raised.append(repr(e)[:200])
@@ -675,7 +701,14 @@ class C08(CleanerCheck):
         if case.get("w") == "w2e":
             return self.run_e2e(case)
         stats = {"faults_fired": {}, "probes": {}}
-        r = run_history(case)
+        d = None
+        if any(sp.get("via") == "file" for sp in case["specs"]):
+            d = tempfile.mkdtemp(prefix="w3-", dir=scratch_base())
+        try:
+            r = run_history(case, facts_dir=d)
+        finally:
+            if d:
+                shutil.rmtree(d, ignore_errors=True)
         viols = oracle_c08(case, r, stats)
         return self.base_result(case, r, viols, stats)
 
@@ -772,8 +805,8 @@ def shrink(case):
                 if j > 0 and s and j - 1 < len(s) and s[j - 1][0] == "d":
                     del s[j - 1]
                 yield c
-        for key, simple in (("no_obfuscate", []), ("no_redact", False), ("allowlist", None), ("width", False)):
-            if spec[key] != simple:
+        for key, simple in (("no_obfuscate", []), ("no_redact", False), ("allowlist", None), ("width", False), ("via", "content")):
+            if spec.get(key, simple) != simple:
                 c = cp()
                 c["specs"][si][key] = simple
                 yield c
